@@ -1133,3 +1133,107 @@ mod c08_shift {
     shift_harness!(c08_shift__b4_s2_k9, 9);
     shift_harness!(c08_shift__b4_s2_k13, 13);
 }
+
+// ------------------------------------------------------------------------------------------------
+// C12 — exact-window harnesses through the public HAL traits (real hal_impl glue + real allocator + real reference op):
+// a scratch of EXACTLY the companion `*_tmp_bytes` suffices (no allocator panic, Kani pointer checks), also for ring
+// degrees whose limb byte size is not a multiple of the 64-byte alignment (N = 2, 4), and the result does not depend on
+// the bytes the scratch held.  Bounded in shape (N constant per harness, size 2), symbolic limb values.
+// ------------------------------------------------------------------------------------------------
+mod c12_window {
+    use super::fmt_stub;
+    use poulpy_hal::api::{
+        ScratchOwnedAlloc, ScratchOwnedBorrow, VecZnxAutomorphismAssign, VecZnxAutomorphismAssignTmpBytes, VecZnxLshAssign, VecZnxLshTmpBytes,
+        VecZnxMulXpMinusOneAssign, VecZnxMulXpMinusOneAssignTmpBytes, VecZnxNormalizeAssign, VecZnxNormalizeTmpBytes, VecZnxRotateAssign,
+        VecZnxRotateAssignTmpBytes, VecZnxRshAssign, VecZnxRshTmpBytes,
+    };
+    use poulpy_hal::layouts::{Module, ScratchOwned, VecZnx, ZnxView, ZnxViewMut};
+    type BE = crate::FFT64Ref;
+
+    fn input<const N: usize>() -> VecZnx<Vec<u8>> {
+        let mut a: VecZnx<Vec<u8>> = VecZnx::alloc(N, 1, 2);
+        for x in a.raw_mut().iter_mut() {
+            *x = kani::any();
+            kani::assume(*x >= -(1 << 7) && *x < (1 << 7));
+        }
+        a
+    }
+    fn same(a: &VecZnx<Vec<u8>>, b: &VecZnx<Vec<u8>>) -> bool {
+        let mut i = 0;
+        while i < a.raw().len() {
+            if a.raw()[i] != b.raw()[i] {
+                return false;
+            }
+            i += 1;
+        }
+        true
+    }
+    fn windows(bytes: usize) -> (ScratchOwned<BE>, ScratchOwned<BE>) {
+        let s1: ScratchOwned<BE> = ScratchOwned::alloc(bytes);
+        let mut s2: ScratchOwned<BE> = ScratchOwned::alloc(bytes);
+        s2.data.as_mut().fill(0x5a);
+        (s1, s2)
+    }
+
+    fn coeff_ops<const N: usize>() {
+        let module: Module<BE> = Module::new_marker(N as u64);
+        let a = input::<N>();
+        // normalize_assign
+        {
+            let (mut s1, mut s2) = windows(module.vec_znx_normalize_tmp_bytes());
+            let (mut x, mut y) = (a.clone(), a.clone());
+            module.vec_znx_normalize_assign(8, &mut x, 0, s1.borrow());
+            module.vec_znx_normalize_assign(8, &mut y, 0, s2.borrow());
+            assert!(same(&x, &y), "C12:normalize_assign independent of scratch contents");
+        }
+        // rotate_assign / automorphism_assign / mul_xp_minus_one_assign
+        {
+            let (mut s1, mut s2) = windows(module.vec_znx_rotate_assign_tmp_bytes());
+            let (mut x, mut y) = (a.clone(), a.clone());
+            module.vec_znx_rotate_assign(3, &mut x, 0, s1.borrow());
+            module.vec_znx_rotate_assign(3, &mut y, 0, s2.borrow());
+            assert!(same(&x, &y), "C12:rotate_assign independent of scratch contents");
+        }
+        {
+            let (mut s1, mut s2) = windows(module.vec_znx_automorphism_assign_tmp_bytes());
+            let (mut x, mut y) = (a.clone(), a.clone());
+            module.vec_znx_automorphism_assign(-1, &mut x, 0, s1.borrow());
+            module.vec_znx_automorphism_assign(-1, &mut y, 0, s2.borrow());
+            assert!(same(&x, &y), "C12:automorphism_assign independent of scratch contents");
+        }
+        {
+            let (mut s1, mut s2) = windows(module.vec_znx_mul_xp_minus_one_assign_tmp_bytes());
+            let (mut x, mut y) = (a.clone(), a.clone());
+            module.vec_znx_mul_xp_minus_one_assign(1, &mut x, 0, s1.borrow());
+            module.vec_znx_mul_xp_minus_one_assign(1, &mut y, 0, s2.borrow());
+            assert!(same(&x, &y), "C12:mul_xp_minus_one_assign independent of scratch contents");
+        }
+        // shifts in place
+        {
+            let (mut s1, mut s2) = windows(module.vec_znx_lsh_tmp_bytes());
+            let (mut x, mut y) = (a.clone(), a.clone());
+            module.vec_znx_lsh_assign(8, 3, &mut x, 0, s1.borrow());
+            module.vec_znx_lsh_assign(8, 3, &mut y, 0, s2.borrow());
+            assert!(same(&x, &y), "C12:lsh_assign independent of scratch contents");
+        }
+        {
+            let (mut s1, mut s2) = windows(module.vec_znx_rsh_tmp_bytes());
+            let (mut x, mut y) = (a.clone(), a.clone());
+            module.vec_znx_rsh_assign(8, 11, &mut x, 0, s1.borrow());
+            module.vec_znx_rsh_assign(8, 11, &mut y, 0, s2.borrow());
+            assert!(same(&x, &y), "C12:rsh_assign independent of scratch contents");
+        }
+    }
+    #[kani::proof]
+    #[kani::unwind(20)]
+    #[kani::stub(alloc::fmt::format, fmt_stub)]
+    fn c12_exact_window_coeff_ops__n2() { coeff_ops::<2>(); }
+    #[kani::proof]
+    #[kani::unwind(20)]
+    #[kani::stub(alloc::fmt::format, fmt_stub)]
+    fn c12_exact_window_coeff_ops__n4() { coeff_ops::<4>(); }
+    #[kani::proof]
+    #[kani::unwind(20)]
+    #[kani::stub(alloc::fmt::format, fmt_stub)]
+    fn c12_exact_window_coeff_ops__n8() { coeff_ops::<8>(); }
+}
